@@ -50,8 +50,18 @@ def _loop_term(model, fi, target: str, consts: Dict[str, Any], extra_env: Dict[s
                 base = t.value if isinstance(t, ast.Subscript) else t
                 if not isinstance(base, ast.Name):
                     continue
+                class B(ast.NodeTransformer):
+                    # x[:, None], x[None, :], x[:, newaxis]: broadcasting reshapes — entry-wise the value itself
+                    def visit_Subscript(self, n):
+                        n = self.generic_visit(n)
+                        sl = n.slice.elts if isinstance(n.slice, ast.Tuple) else [n.slice]
+                        full = lambda x: (isinstance(x, ast.Slice) and x.lower is None and x.upper is None and x.step is None) or \
+                            (isinstance(x, ast.Constant) and x.value is None) or (isinstance(x, ast.Name) and x.id == "newaxis")
+                        if len(sl) >= 2 and all(full(x) for x in sl):
+                            return n.value
+                        return n
                 try:
-                    v = ti2.ev(s.value, env)
+                    v = ti2.ev(B().visit(ast.parse(norm(s.value), mode="eval").body), env)
                 except Unsupported:
                     env.pop(base.id, None)
                     continue
